@@ -455,23 +455,37 @@ def r11_6(chk, so):
             got3 = e.value
     chk.ob("R11.6", SO, "SymmetryOperation.apply", "3-vectors: x . R^T + t", got3 is not None and got3 == want3,
            expected=str(want3), found=str(got3))
-    chk.ob("R11.6", SO, "SymmetryOperation.apply", "homogeneous 4-vectors: x . S^T with the Seitz matrix", got4 is not None and got4 == want4,
+    sl3 = "(slice None 3 None)"
+
+    def seitz_of(ev_, objkey=None):
+        """(is [[R, t], [0, 1]] of self, description) for the array object built in ev_ (the one named by objkey, or the only one)."""
+        blocks, init = {}, None
+        for e in ev_.events:
+            if e.kind == "assign" and e.name and e.value.as_atom() and e.value.as_atom()[0] == "obj" and (objkey is None or e.value.key() == objkey):
+                init = e.value.as_atom()[3]
+            if e.kind == "store" and (objkey is None or e.target.as_atom()[1].key() == objkey):
+                t = e.target.as_atom()
+                blocks[", ".join(str(i) for i in t[2])] = e.value.key()
+        # the matrix receives fractions: it must be a float matrix of its own, whatever dtype the rotation happens to have
+        dt = dict(init.as_atom()[3]).get("dtype") if init is not None and init.as_atom() and len(init.as_atom()) > 3 and init.as_atom()[3] else None
+        fl = dt is None or any(w in dt.key() for w in ("float", "double")) and ".dtype" not in dt.key()
+        ok = fl and init is not None and call_name(init.as_atom() or ()) in ("numpy.eye", "numpy.identity") and init.as_atom()[2][0] == P.const(4) \
+            and blocks.get(f"{sl3}, {sl3}") == "self.rotation" and blocks.get(f"{sl3}, 3") == "self.translation" and len(blocks) == 2
+        return ok, f"{init} {blocks}" + ("" if fl else " (integer rotations give an integer matrix: the translation is truncated)")
+    ok4 = got4 is not None and got4 == want4
+    if got4 is not None and not ok4:
+        # the Seitz matrix assembled on the spot (same construction as the property) instead of read from the property
+        ga = got4.as_atom()
+        if ga and ga[0] == "matmul" and len(ga[1]) == 2 and ga[1][0].key() == x.key():
+            ta = ga[1][1].as_atom()
+            if ta and ta[0] == "T" and ta[1].as_atom() and ta[1].as_atom()[0] == "obj":
+                ok4 = seitz_of(ev, ta[1].key())[0]
+    chk.ob("R11.6", SO, "SymmetryOperation.apply", "homogeneous 4-vectors: x . S^T with the Seitz matrix", ok4,
            expected=str(want4), found=str(got4))
     sv = so.ev("SymmetryOperation.seitz_matrix")
     chk.saw(SO, "SymmetryOperation.seitz_matrix")
-    blocks = {}
-    init = None
-    for e in sv.events:
-        if e.kind == "assign" and e.name and e.value.as_atom() and e.value.as_atom()[0] == "obj":
-            init = e.value.as_atom()[3]
-        if e.kind == "store":
-            t = e.target.as_atom()
-            blocks[", ".join(str(i) for i in t[2])] = e.value.key()
-    sl3 = "(slice None 3 None)"
-    chk.ob("R11.6", SO, "SymmetryOperation.seitz_matrix", "S = eye(4) with S[:3,:3] = R and S[:3,3] = t",
-           init is not None and call_name(init.as_atom() or ()) in ("numpy.eye", "numpy.identity") and init.as_atom()[2][0] == P.const(4)
-           and blocks.get(f"{sl3}, {sl3}") == "self.rotation" and blocks.get(f"{sl3}, 3") == "self.translation",
-           found=f"{init} {blocks}")
+    oks, founds = seitz_of(sv)
+    chk.ob("R11.6", SO, "SymmetryOperation.seitz_matrix", "S = eye(4) with S[:3,:3] = R and S[:3,3] = t", oks, found=founds)
     # Cartesian form
     cr = chk.repo.module(CR)
     cv = cr.ev("Crystal.cartesian_symmetry_operations")
